@@ -342,6 +342,39 @@ theorem C11_no_int64_overflow (fs : FeeSchedule) (o : Order) (ver : Nat)
     ∀ v ∈ reservedIntermediates fs o ver, -(2 : Int) ^ 63 ≤ v ∧ v < (2 : Int) ^ 63 :=
   reserved_intermediates_in64 fs o ver hD hm
 
+/-- **No overflow of the running sum of `validateOrder`.** If the new order and every stored order of the account is
+archived or inside the domain with a non-zero minimum match, and the account has at most three stored orders, then
+every value the variable `reserved` takes (`runningSums`, ending in the total compared with the account value) lies in
+`[0, 2^63)`: each reserved value is at most 2.2·10^18 (`reservedOf_bounds`). Beyond four evaluated orders of maximal
+size the `int64` sum can really wrap; the driver answers `ood` there. -/
+theorem C11_validate_sum_no_overflow (fs : FeeSchedule) (db : List Order) (o : Order) (acct : Account)
+    (ho : archived o.state = true ∨ (inDomain fs o = true ∧ 0 < o.minUnitsMatch))
+    (hdb : ∀ x ∈ db, x.acctKey = acct.key → archived x.state = true ∨ (inDomain fs x = true ∧ 0 < x.minUnitsMatch))
+    (hn : (db.filter (fun x => x.acctKey = acct.key)).length ≤ 3) :
+    ∀ v ∈ reservedOf fs acct.version o :: runningSums fs acct (reservedOf fs acct.version o) db,
+      0 ≤ v ∧ v < (2 : Int) ^ 63 := by
+  have h0 := reservedOf_bounds fs o acct.version ho
+  intro v hv
+  rcases List.mem_cons.1 hv with rfl | hv
+  · constructor
+    · exact h0.1
+    · have := h0.2; norm_num at *; omega
+  · have := runningSums_bound fs acct db (reservedOf fs acct.version o) 1
+      (by constructor <;> [exact h0.1; (have := h0.2; push_cast; omega)]) hdb v hv
+    have hlen : (((1 + (db.filter (fun x => x.acctKey = acct.key)).length : Nat)) : Int) ≤ 4 := by
+      exact_mod_cast (by omega : 1 + (db.filter (fun x => x.acctKey = acct.key)).length ≤ 4)
+    constructor
+    · exact this.1
+    · have h2 := this.2
+      have : (((1 + (db.filter (fun x => x.acctKey = acct.key)).length : Nat)) : Int) * (22 * 10 ^ 17) ≤ 4 * (22 * 10 ^ 17) :=
+        mul_le_mul_of_nonneg_right hlen (by norm_num)
+      norm_num at *; omega
+
+/-- the list of running sums ends in exactly the total `validateOrder` compares with the account value -/
+theorem C11_validate_sum_total (fs : FeeSchedule) (acct : Account) (db : List Order) (r0 rs : Int)
+    (h : sumReserved fs acct db = some rs) :
+    (r0 :: runningSums fs acct r0 db).getLast? = some (r0 + rs) := runningSums_last fs acct db r0 rs h
+
 /-! ## the statement without the guards, and why each guard is there -/
 
 /-- The reserve inequality for an order, as the English text reads when no admission guard is added. -/
@@ -390,6 +423,28 @@ theorem C11_ask_guard_needed :
   · rintro ⟨R, hR, hle⟩
     have h1 : orderReservedValue ⟨0, 0⟩ askGuardWitness 0 = .ok 0 := by decide
     have h2 : totalDebit ⟨0, 0⟩ askGuardWitness [⟨253, 0, [⟨2, 1000700, 0⟩]⟩] = 25 := by decide
+    rw [h1] at hR
+    injection hR with hR
+    subst hR
+    rw [h2] at hle
+    simp [totalFills] at hle
+
+/-- the premium-magnitude guard cannot be dropped either: a 3-match bid whose premium is about 2^61 sat (no `int64`
+    overflow anywhere) is debited 54 sat more by one fill of everything than its reserve – beyond the tolerance of 2 –
+    because `3·LumpSumPremium(m)` and `LumpSumPremium(3m)` round differently. Reproduced on the Go code (corpus). -/
+def premiumGuardWitness : Order :=
+  ⟨true, 0, 2, 0, 2965729243, 5631900000, 56319, 56319, 18773, 253, 138052190, 0, 0⟩
+
+theorem C11_premium_guard_needed :
+    premiumGuard premiumGuardWitness = false ∧ feePerKwFloor ≤ premiumGuardWitness.maxBatchFeeRate ∧
+    Admissible premiumGuardWitness 0 (· ≤ premiumGuardWitness.fixedRate) [⟨253, 0, [⟨56319, 2965729243, 0⟩]⟩] ∧
+    ¬ ReserveCovers ⟨0, 0⟩ premiumGuardWitness 0 [⟨253, 0, [⟨56319, 2965729243, 0⟩]⟩] := by
+  refine ⟨by decide, by decide, ?_, ?_⟩
+  · refine ⟨?_, ?_, ?_, ?_, ?_⟩ <;> simp [premiumGuardWitness, totalUnits, fillsUnits]
+  · rintro ⟨R, hR, hle⟩
+    have h1 : orderReservedValue ⟨0, 0⟩ premiumGuardWitness 0 = .ok 2305843005682364271 := by decide
+    have h2 : totalDebit ⟨0, 0⟩ premiumGuardWitness [⟨253, 0, [⟨56319, 2965729243, 0⟩]⟩] = 2305843005682364325 := by
+      decide
     rw [h1] at hR
     injection hR with hR
     subst hR
@@ -458,5 +513,12 @@ example : ∀ b ∈ ([⟨800, 1, [⟨2, 4000, 0⟩]⟩, ⟨900, 2, [⟨2, 4000, 
     balance delta is −9718 and the list of intermediates has 32 entries (remainder branch) -/
 example : inDomain exFs exBid = true ∧ 0 < exBid.minUnitsMatch ∧ archived exBid.state = false ∧
     closedBalanceDelta exFs exBid 0 = -9718 ∧ (reservedIntermediates exFs exBid 0).length = 32 := by decide
+
+/-- `C11_validate_sum_no_overflow`: the accepted example – new bid and one stored ask of the account, one foreign -/
+example : (archived exBid.state = true ∨ (inDomain exFs exBid = true ∧ 0 < exBid.minUnitsMatch)) ∧
+    (∀ x ∈ [exAsk, { exBid with acctKey := 1 }], x.acctKey = 0 →
+      archived x.state = true ∨ (inDomain exFs x = true ∧ 0 < x.minUnitsMatch)) ∧
+    ([exAsk, { exBid with acctKey := 1 }].filter (fun x => x.acctKey = 0)).length ≤ 3 ∧
+    runningSums exFs ⟨0, 2000000, 0⟩ 9718 [exAsk, { exBid with acctKey := 1 }] = [705324] := by decide
 
 end Pool.C11
